@@ -242,7 +242,8 @@ def judgeC12 (op : DoOp) (out : String) : Expect :=
   if boundaries.any (fun n => n ≥ 4 && n < got.length && endsWithSpecCrc (got.take n)) then .noPanic else
   -- what arrived has an inconsistent trailer (this covers every corruption, truncation and extension)
   let o := outcomeOf out
-  .pred (o.startsWith "err" && !o.startsWith "err client:err exc")
+  -- neither wrapped in a ClientError (recognised in the read loop) nor returned by the parser
+  .pred (o.startsWith "err" && (o.splitOn "excR").length == 1 && (o.splitOn "excT").length == 1)
     "a reply whose CRC does not match must not be returned as a response or as a device exception"
 
 /-- C19: the hooks see exactly what the transport saw -/
